@@ -12,6 +12,34 @@ pub fn run(ctx: &mut Ctx) {
     if part.is_empty() || part == "int_exh" { int_exhaustive(ctx); }
     if part.is_empty() || part == "int" { int_random(ctx); }
     if part.is_empty() || part == "raw" { raw_random(ctx); }
+    if part.is_empty() || part == "big" { big(ctx); }
+}
+
+// Large streams: the default 1 MiB buffer (and 2 MiB, 64 KiB, 4 KiB ones) flushed several times in mid-stream, with long
+// stretches of zeros in the middle and at the end (a writer may treat an all-zero block specially).
+fn big(ctx: &mut Ctx) {
+    if cfg!(miri) { return; }
+    // (width, buffer in items, number of items, pattern)
+    let mut cases: Vec<(usize, Option<usize>, usize, usize)> = vec![
+        (13, None, 700_000, 0), (64, None, 300_000, 2), (16, None, 50_000, 1), (16, Some(4096 * 8 / 16), 50_000, 1), (1, None, 9_000_000, 3),
+        (13, Some(2 * 1024 * 1024 * 8 / 13), 1_400_000, 0), (32, Some(65536 * 8 / 32), 100_000, 2), (64, Some(512), 40_000, 1), (7, Some(1 << 20), 2_500_000, 2),
+        (64, None, 131_072 * 2, 0), (8, None, 1 << 21, 3), (16, Some(1 << 19), 1 << 20, 1),
+    ];
+    if !ctx.quick() { cases.extend_from_slice(&[(13, None, 2_000_000, 2), (63, None, 400_000, 3), (33, Some(1 << 18), 900_000, 0), (5, None, 4_000_000, 1)]); }
+    for (k, &(width, buf, items, pattern)) in cases.iter().enumerate() {
+        if !ctx.mine(k as u64) { continue; }
+        if !ctx.begin_case() { continue; }
+        let mut rng: Rng = ctx.rng(0xC12_B00 + k as u64);
+        let third = items / 3;
+        let pushes: Vec<IPush> = (0..items).map(|i| {
+            let zero = match pattern { 0 => false, 1 => true, 2 => i >= items - third, _ => i < third || (i >= 2 * third && i < 2 * third + third / 2) };
+            IPush::One(if zero { 0 } else { rng.next_u64() | 1 })
+        }).collect();
+        let mode = MODES[k % 4];
+        int_case(ctx, width, buf, &pushes, mode, (1u64 << 40) + k as u64);
+        ctx.case(hash64(&[4, width as u64, buf.unwrap_or(usize::MAX) as u64, items as u64, pattern as u64]), true);
+        ctx.sample(|| format!("big: width={} buf_len={:?} items={} zero pattern {} mode={:?}", width, buf, items, pattern, mode));
+    }
 }
 
 fn ser<T: Serialize>(x: &T) -> Vec<u8> {
